@@ -369,7 +369,9 @@ def gen_job(r, P, aware, now, jid):
         ty = r.choice(P.kinds)
         c = core.default_cfg(type=ty)
         if ty == 0:
-            c["timing"] = [("C", r.choice([0, 1, SEC, 2 * SEC, 5 * SEC, 60 * SEC, 3600 * SEC, r.randrange(1, 100 * SEC)]))]
+            # ... up to periods beyond 2**31 ms (a sleep longer than a 32-bit millisecond timer can hold)
+            c["timing"] = [("C", r.choice([0, 1, SEC, 2 * SEC, 5 * SEC, 60 * SEC, 3600 * SEC, r.randrange(1, 100 * SEC),
+                                           26 * 86400 * SEC, 30 * 86400 * SEC + 1]))]
         else:
             n = 1 if r.random() > P.p_batched else r.randrange(2, 4)
             c["timing"] = []
